@@ -20,7 +20,7 @@ type dtRow struct {
 	Mode string `json:"mode"`
 }
 
-var dtZones = []string{"UTC", "America/New_York", "America/Los_Angeles", "America/St_Johns", "America/Sao_Paulo", "Europe/London", "Europe/Berlin",
+var dtZones = []string{"MST", "EST", "HST", "CET", "EET", "WET", "MET", "PST8PDT", "CST6CDT", "EST5EDT", "MST7MDT", "Etc/GMT+7", "Etc/GMT-14", "GMT", "Zulu", "UTC", "America/New_York", "America/Los_Angeles", "America/St_Johns", "America/Sao_Paulo", "Europe/London", "Europe/Berlin",
 	"Europe/Moscow", "Africa/Cairo", "Africa/Johannesburg", "Asia/Kolkata", "Asia/Kathmandu", "Asia/Tokyo", "Asia/Shanghai", "Asia/Tehran",
 	"Australia/Sydney", "Australia/Lord_Howe", "Australia/Adelaide", "Pacific/Auckland", "Pacific/Chatham", "Pacific/Kiritimati", "Pacific/Honolulu",
 	"Etc/GMT+12", "Etc/GMT-14", "Atlantic/Azores", "America/Anchorage", "America/Mexico_City", "Asia/Dubai", "Asia/Karachi", "Asia/Dhaka",
